@@ -2,5 +2,5 @@
 set -e
 VERIF_DIR="$(cd "$(dirname "$0")" && pwd)"
 mkdir -p "$VERIF_DIR/.work"
-"$VERIF_DIR/build.sh"
-"$VERIF_DIR/.work/bin/jdmc" selftest
+BIN="$("$VERIF_DIR/build.sh" | tail -1)"
+"$BIN/jdmc" selftest
